@@ -61,6 +61,8 @@ inductive MergeErr where
   | zeroDim (name : String)                -- ValueError of np.concatenate: a one-element vector was squeezed to 0-d
   | emptyMax (name : String)               -- ValueError of np.max / array.max() on an empty array
   | shape (name : String)                  -- AssertionError (merge.py:50, 161, 228)
+  | ragged (name : String)                 -- ValueError of np.concatenate (`_concat`, merge.py:30): the index tables of
+                                           -- the probes have rows of different widths
 deriving DecidableEq, Repr
 
 /-- state kept on `self` between the `write_*` methods -/
@@ -164,6 +166,11 @@ def runSteps : List (FS × Reg → M (FS × Reg)) → FS × Reg → (FS × Reg) 
     match st s with
     | .error e => (s, some e)
     | .ok s' => runSteps rest s'
+
+/-- the per-probe tables can be stacked along their rows: every row of every probe has the width of the first row of
+the first probe (`np.concatenate(arrs)` of 2-D arrays, merge.py:30) -/
+def sameWidth (tables : List (List (List Nat))) : Bool :=
+  tables.all fun t => t.all fun row => row.length == ((tables.headD []).headD []).length
 
 section steps
 variable (subdirs : List String)
@@ -290,17 +297,25 @@ def cTemplates : Compute := fun fs reg =>
       .ok ([("templates.npy", .tmpl (C12.mergeTemplates ts))], reg)
     else .error (.shape "templates.npy")
 
-/-- `write_template_data`, `pc_feature_ind.npy` (merge.py:263-285): shifted by `self.channel_index_offsets` -/
+/-- `write_template_data`, `pc_feature_ind.npy` (merge.py:266-286): shifted by `self.channel_index_offsets`; the
+shifted tables are stacked by `_concat(arrays, axis=0)` (merge.py:285, 28-30): `np.concatenate` raises `ValueError`
+unless every probe's table has the row width of the first (`sameWidth`) -/
 def cPcInd : Compute := fun fs reg =>
   match loadEach (readTable fs "pc_feature_ind.npy") subdirs with
   | .error e => .error e
-  | .ok tables => .ok ([("pc_feature_ind.npy", .table (C12.shiftTables tables reg.chanIndexOffsets))], reg)
+  | .ok tables =>
+    if sameWidth tables then
+      .ok ([("pc_feature_ind.npy", .table (C12.shiftTables tables reg.chanIndexOffsets))], reg)
+    else .error (.ragged "pc_feature_ind.npy")
 
-/-- `write_template_data`, `template_feature_ind.npy`: shifted by `self.template_offsets` -/
+/-- `write_template_data`, `template_feature_ind.npy`: shifted by `self.template_offsets`, stacked likewise -/
 def cTfInd : Compute := fun fs reg =>
   match loadEach (readTable fs "template_feature_ind.npy") subdirs with
   | .error e => .error e
-  | .ok tables => .ok ([("template_feature_ind.npy", .table (C12.shiftTables tables reg.templateOffsets))], reg)
+  | .ok tables =>
+    if sameWidth tables then
+      .ok ([("template_feature_ind.npy", .table (C12.shiftTables tables reg.templateOffsets))], reg)
+    else .error (.ragged "template_feature_ind.npy")
 
 /-- `write_misc` for one file name (merge.py:287-309): skipped when a probe has no such file -/
 def cMisc (fn : String) : Compute := fun fs reg =>
